@@ -23,17 +23,19 @@ CLAIMS = {
             'Not decided: that opcode/ModRM/SIB bytes denote the requested operands (the reverse table fd_afs is built at run time; its source tables are covered by C01/C17 rules), '
             'candidate completeness, values outside [-2^31, 2^32) which the parsers normalise modulo 2^32 (0xFFFFFFFF is the same parsed value as -1).'),
     'C03': ('other',
-            'static analysis: constant evaluation of printer tables and parser lexicons (register names, size keywords), injectivity analysis of the SSE suffix scheme, inverse-table comparison of mirrored special cases',
+            'static analysis: constant evaluation of printer tables and parser lexicons (register names, size keywords), injectivity analysis of the SSE suffix scheme, inverse-table comparison of mirrored special cases, linear-use typestate over the operand renderer',
             'Decides necessary conditions of the round trip that are visible in tables: every register name and size keyword the printers can emit is in the corresponding '
             'parser\'s lexicon with the same size; exactly one suffix key per SSE row name, (row, prefix) -> printed mnemonic injective up to the collisions the assembler '
-            'special-cases, mnemo_mmx_hash maps every printed name to a row that prints it; the fence/movhlps/implicit-operand special cases are inverse in both directions.',
+            'special-cases, mnemo_mmx_hash maps every printed name to a row that prints it; the fence/movhlps/implicit-operand special cases are inverse in both directions; a linear-use typestate over dict_to_ad shows that displacement, symbol and segment of an operand '
+            'reach the rendered text exactly once on every path.',
             'Not decided: equality of bytes after a concrete trip, the txt operand-order memo, candidate-set membership. Known findings: cr0-7/dr0-7 are printed but parsed as symbols '
             '(enabling them exposes a second defect in asm_candidates, so not repaired).'),
     'C09': ('other',
             'static analysis: partial evaluation of the table-driven AT&T mnemonic functions (mnemo_to_att / mnemo_from_att) over every printed mnemonic x operand-size form derived from the opcode table',
             'Decides that every mnemonic/operand-size form the decoder can produce reaches a return of mnemo_to_att (exhaustiveness of the five AT&T tables and of the size '
             'suffix dictionaries, including partial gaps such as mov with segment sizes), that mnemo_from_att maps the produced AT&T mnemonic back to the same mnemonic '
-            '(unique decodability under the dispatch order), and that the suffix->size tables are injective.',
+            '(unique decodability under the dispatch order), that the suffix->size tables are injective, that irregular AT&T spellings agree with a GNU as reference list, and that the AT&T operand grammar keeps both '
+            'coefficients when base and index are the same register.',
             'Not decided: operand order/memory layout for concrete operands, the fsub/fdiv reversal on parsed operands, acceptance by GNU as (no assembler in the sandbox). '
             'Known findings: 65 mnemonics/forms without AT&T mnemonic, fisttpw not parseable back.'),
     'C10': ('other',
@@ -48,8 +50,9 @@ CLAIMS = {
             'static analysis: operator vocabulary of the lifter (from E4 templates, with arities) cross-checked against the evaluator dispatch table and each evaluator\'s operand subscripts; always-raising-construct lint with a small fixed-width-integer type inference; template of the cast/lookup code',
             'Every operator string the lifter builds either has a constant evaluator reading no more operands than the lifter passes, or is kept symbolic by the membership '
             'guard in eval_ExprOp; evaluators of the flattenable operators fold over all operands; no evaluation method contains a construct that raises on every '
-            'execution; results are cast to the first operand\'s type and identifiers are looked up exactly in the pool.',
-            'Not decided: numeric correctness of each evaluator, Cond/Compose/Slice folding on concrete values. 34 known findings: integer operators without evaluator (mul/div '
+            'execution; results are cast to the first operand\'s type and identifiers are looked up exactly in the pool; each evaluator applies the Python operator its operator names '
+            '(fold token, comparison, shift direction, product half) and rotations reduce the count modulo the ring size with complementary shift amounts adding up to it.',
+            'Not decided: numeric correctness of div/idiv/bsf/bsr/parity evaluators, Cond/Compose/Slice folding on concrete values. 34 known findings: integer operators without evaluator (mul/div '
             'families, rcr), bsf/bsr arity, true division on moduint, raise of strings, mpool.items/keys.'),
     'C08': ('other',
             'static analysis: read/write-set inference over the lifter\'s IR templates (E4) with get_r(mem_read) semantics, compared with an architecture effects table',
@@ -98,12 +101,13 @@ CLAIMS = {
             'Not decided: operand field rendering/parsing for concrete values. 30 genuine defects of the (untested, python-2 era) PowerPC module are listed in known_findings.json. '
             'Trusted: ref/ppc_opcodes.ref; opcodes unknown to the reference are not judged.'),
     'C05': ('other',
-            'static analysis: abstract interpretation of list positions in the constant-folding loop (left/right operand identity), operator-set inclusion between the zero-drop and unwrap guards',
+            'static analysis: abstract interpretation of list positions in the constant-folding loop (left/right operand identity), operator-set inclusion between the zero-drop and unwrap guards, linear arithmetic over slice bounds in merge_sliceto_slice',
             'Decides two necessary operand-discipline conditions of meaning preservation: every folding branch applies the Python operator its operator string '
             'names, with LEFT.arg OP RIGHT.arg for non-commutative operators, at the operands\' width; every operator whose trailing literal 0 is dropped has 0 as '
-            'right-neutral element and is unwrapped when one operand remains; the unwrap list contains no unary operator.',
-            'Not decided (quantifies over values, no honest structural surrogate): soundness of each rewrite\'s side condition for all constants and widths, width '
-            'preservation through merge_sliceto_slice, termination of the fixpoint loop.'),
+            'right-neutral element and is unwrapped when one operand remains; the unwrap list contains no unary operator; in merge_sliceto_slice constant pieces are masked to their width, pieces merge '
+            'only when adjacent and the high constant is shifted by exactly the width of the lower piece (linear arithmetic over bit positions under the loop invariant).',
+            'Not decided (quantifies over values, no honest structural surrogate): soundness of each rewrite\'s side condition for all constants and widths, '
+            'the slice-of-compose and compose-of-slice rewrites, termination of the fixpoint loop.'),
     'C19': ('other',
             'static analysis: def-use audit of every PLY grammar action (token-class positions from the production docstrings) for case folding and number normalisation',
             'In both grammars every token of a class the lexer classifies case-insensitively (REGISTER, SEGMENT, ST, size keywords) is folded before it is used as '
